@@ -56,6 +56,38 @@ def escape_table(ctx, s):
     okf = okf and lit.startswith(b"\x02\\u")
     s.add("S-TABLE", fn, "control-escape", "\\u00xx", fn.sp, PROVED if okf else VIOLATION,
           "remaining control characters are written as \\u + lower-case hex" if okf else "the fallback escape is not \\u + lower-case hex")
+    # every append of the escaper is one of: the verbatim copy, a table arm, the \\u fallback; the fallback is
+    # reachable only for code points <= 0x20 (everything else passes verbatim or is one of the seven)
+    from ..prove import lin_add, lin_const
+    P = ctx.E.prover(fn)
+    cp = an.term[sw]["discr"]
+    arms = 0
+    for b, i in an.calls():
+        c = i["callee"] or ""
+        if not c.endswith("::extend"):
+            continue
+        src = i["args"][1]
+        if src[0] == "slice":
+            continue
+        allv = deep_values(an, src) + ([i["pre"][1]] if i["pre"][1] is not None else [])
+        is_fmt = any(contains_value(x, lambda y: y[0] == "call" and y[1].rsplit("::", 1)[-1] in ("format", "must_use")) for x in allv)
+        bs = find_values(src, lambda x: x[0] == "bytes")
+        if bs and not is_fmt:
+            arms += 1
+            in_table = any(f[0] == "eq" and True for f in ()) or _arm_of(an, cfg, sw, b)
+            if not in_table:
+                s.add("S-TABLE", fn, "escape-outside-table", repr(bs[0][1])[:20], i["sp"], VIOLATION,
+                      "a constant escape sequence is appended outside the code-point dispatch: some character is written in a form "
+                      "other than the NIP-01 table", b)
+            continue
+        g = lin_add(P.lin(cp), lin_const(-0x20))        # cp - 0x20 <= 0
+        facts = ctx.E.facts(fn, b)
+        okc = P.prove_le0(g, facts) and _arm_of(an, cfg, sw, b, default=True)
+        s.add("S-TABLE", fn, "fallback-only-for-controls", "\\u00xx", i["sp"], PROVED if okc else VIOLATION,
+              "the \\u form is produced only in the default arm of the dispatch and only for code points <= 0x20" if okc else
+              "a \\u escape (or other non-table output) can be produced for a character that NIP-01 requires verbatim or as a "
+              "two-character escape", b)
+    ctx.instances["C08.table-arm appends"] = arms
     # safe ranges
     sf = ctx.fn("pocket_types::json::json_escape::is_safe_char")
     sa = ctx.E.an(sf)
@@ -115,6 +147,15 @@ def escape_table(ctx, s):
           "unescape table is not the inverse of the escape table: %s" % sorted(got.items()))
 
 
+def _arm_of(an, cfg, sw, b, default=False):
+    """block b lies in a (default=False: valued, default=True: otherwise) arm of the dispatch sw: some out-edge of sw of
+    that kind dominates b"""
+    for e in cfg.out_edges[sw]:
+        if (e.label[0] == "otherwise") == default and cfg.dominates(e.node, b):
+            return True
+    return False
+
+
 def _writes(ua, un, b):
     for _ in range(4):
         for si in range(len(un.blocks[b]["stmts"])):
@@ -169,3 +210,65 @@ def writer_escapes(ctx, s, nice_name, out_local_name="output", data_preds=None):
 def _has_data(v):
     return contains_value(v, lambda x: x[0] == "call" and x[1].startswith("pocket_types::tags::") and x[1].rsplit("::", 1)[-1] in ("next", "get_string", "get_value")) or \
         contains_value(v, lambda x: x[0] == "call" and x[1].endswith("::content"))
+
+
+UNESCAPE = "pocket_types::json::json_escape::json_unescape"
+
+
+def unescape_writes(ctx, s):
+    """S-ENCODE: what json_unescape writes to its output is, at every write, one of: a constant byte (the single-letter
+    escapes), bytes of the input copied verbatim, or the UTF-8 encoding of a \\u code point produced by encode_utf8.
+    A computed value stored as a single byte is correct only below 0x80."""
+    from ..prove import lin_add, lin_const
+    un = ctx.fn(UNESCAPE)
+    ua = ctx.E.an(un)
+    P = ctx.E.prover(un)
+    ctx.functions.add(un.path)
+    out = ("param", 2)
+    inp = ("param", 1)
+    n = 0
+    for (b, si), L in sorted(ua.stmt_loc.items()):
+        if L is None or L[0] != "deref" or not contains_value(L, lambda y: y == out):
+            continue
+        v = ua.stmt_val.get((b, si))
+        if v is None:
+            continue
+        n += 1
+        sp = un.blocks[b]["stmts"][si].get("sp") or un.sp
+        if v[0] == "const":
+            continue
+        core = v
+        while core[0] == "cast":
+            core = core[-1]
+        if core[0] in ("index", "aload", "load") and contains_value(core, lambda y: y == inp) and not contains_value(core, lambda y: y[0] == "bin"):
+            continue                # one input byte copied verbatim
+        facts = ctx.E.facts(un, b)
+        lc = P.lin(core)
+        hi = (1 << 32) - 1
+        for K in (0x7F, 0xFF, 0x7FF, 0xFFFF, 0x10FFFF):
+            if P.prove_le0(lin_add(lc, lin_const(-K)), facts):
+                hi = K
+                break
+        if hi <= 0x7F:
+            s.add("S-ENCODE", un, "byte-store-below-0x80", s.show(core, un)[:40], sp, PROVED,
+                  "a computed value is stored as one byte only when it is below 0x80 (where UTF-8 is the identity)", b)
+        elif hi < (1 << 32) - 1:
+            s.add("S-ENCODE", un, "code-point-stored-as-byte", s.show(core, un)[:40], sp, VIOLATION,
+                  "a computed code point up to %#x is stored as a single raw byte: for 0x80 and above that is not its UTF-8 encoding "
+                  "(invalid UTF-8 reaches the binary event)" % hi, b)
+        else:
+            s.add("S-ENCODE", un, "code-point-stored-as-byte", s.show(core, un)[:40], sp, UNDECIDED,
+                  "a computed value is stored as one byte; its range is not bounded here (the narrowing rule judges the cast)", b)
+    copies = 0
+    for b, i in ua.calls():
+        c = i["callee"] or ""
+        if c.endswith("copy_from_slice") and contains_value(i["args"][0], lambda y: y == out):
+            copies += 1
+            src = i["args"][1]
+            ok = src[0] == "slice" and src[1] == inp
+            s.add("S-ENCODE", un, "copy-source-is-input", s.show(src, un)[:40], i["sp"], PROVED if ok else VIOLATION,
+                  "bytes copied to the output are a slice of the input" if ok else "bytes copied to the output are not a slice of the input", b)
+    enc = [(b, i) for b, i in ua.calls() if (i["callee"] or "").endswith("::encode_utf8")]
+    ctx.floor("S-ENCODE.encode_utf8 sites", len(enc), 1)
+    ctx.instances["S-ENCODE.byte stores"] = n
+    ctx.instances["S-ENCODE.copies"] = copies
